@@ -29,10 +29,20 @@ func ruleC05Window(c *Ctx) {
 	n := 0
 	tbd := NewTB()
 	var slices []*ssa.Slice
-	allInstrs(exec, func(b *ssa.BasicBlock, in ssa.Instruction) {
+	wf := exec // the function that holds the window code: exec itself or a helper extracted from it
+	deepInstrs(exec, func(g *ssa.Function, tb *TB, b *ssa.BasicBlock, in ssa.Instruction) {
 		sl, ok := in.(*ssa.Slice)
 		if !ok {
 			return
+		}
+		if g != exec {
+			if len(slices) > 0 && wf != g {
+				return
+			}
+			if _, isSlice := sl.X.Type().Underlying().(*types.Slice); !isSlice || (sl.Low == nil && sl.High == nil) {
+				return
+			}
+			wf, tbd = g, tb
 		}
 		if a, isAlloc := sl.X.(*ssa.Alloc); isAlloc && a.Comment == "varargs" {
 			return
@@ -120,8 +130,24 @@ func ruleC05Window(c *Ctx) {
 		// value stored to the error result before this return, within the window region
 	})
 	// named results are spilled to cells in exec (it has a defer): look at stores to the error cell in blocks reachable from the window
+	if wf != exec {
+		// the window lives in a helper: it must not be able to fail (no error result, or only nil)
+		allInstrs(wf, func(_ *ssa.BasicBlock, in ssa.Instruction) {
+			r, ok := in.(*ssa.Return)
+			if !ok {
+				return
+			}
+			for i, res := range r.Results {
+				if wf.Signature.Results().At(i).Type().String() == "error" {
+					if cst, isC := res.(*ssa.Const); !isC || !cst.IsNil() {
+						okE, whyE = false, "the window helper can return a non-nil error at "+c.P.Pos(r.Pos())
+					}
+				}
+			}
+		})
+	}
 	errCell := resultCell(exec, 1)
-	if errCell != nil {
+	if errCell != nil && wf == exec {
 		for _, st := range storesTo(errCell) {
 			if st.Parent() != exec || !reaches(first.Block(), st.Block()) {
 				continue
@@ -281,6 +307,15 @@ func ruleC05LessTable(c *Ctx) {
 			s := a[3]
 			return s.Op == "slice" && s.Args[0].Op == "param" && s.Args[0].Name == ob && s.Args[1].Op == "const" && s.Args[1].Name == "1" && s.Args[2].Name == "-"
 		}},
+	}
+	if !selfCalls(cmpFn) {
+		// iterative form: one pass over the keys, the first key that tells the rows apart decides
+		for _, lp := range rangeLoops(cmpFn) {
+			if p, isP := lp.over.(*ssa.Parameter); isP && p.Name() == ob {
+				c.lessTableLoopForm(cmpFn, lp, key)
+				return
+			}
+		}
 	}
 	tb := BuildTable(cmpFn, atoms, true)
 	if tb.Err != nil {
@@ -470,9 +505,9 @@ func ruleC05SortWiring(c *Ctx) {
 		}
 		// the window is cut from the sorted rows
 		cut := false
-		allInstrs(exec, func(_ *ssa.BasicBlock, in ssa.Instruction) {
+		deepInstrs(exec, func(_ *ssa.Function, tb *TB, _ *ssa.BasicBlock, in ssa.Instruction) {
 			if sl, ok := in.(*ssa.Slice); ok && sl.Low != nil {
-				if strings.Contains(tbd.Of(sl.X).String(), funcName(stage)+"(") {
+				if strings.Contains(tb.Of(sl.X).String(), funcName(stage)+"(") {
 					cut = true
 				}
 			}
@@ -571,4 +606,151 @@ func ruleC05BuildLimitOrder(c *Ctx) {
 		ok, why = false, "no store to the direction flag found"
 	}
 	c.Check(ok, "c05.build", c.P.funcKey(bo)+"/direction", c.P.Pos(bo.Pos()), fmt.Sprintf("%d stores: Value = (Direction == AscOrder)", n), why)
+}
+
+
+// lessTableLoopForm: the comparator written as a loop over the keys. Per iteration (for every key position): NULL
+// first => not less; NULL second => less; res = compare.Compare(first, second) != 0 => less iff res<0 ascending /
+// res>0 descending; res == 0 => next key. After the last key: not less. Equivalent to the recursive table.
+func (c *Ctx) lessTableLoopForm(f *ssa.Function, lp *loopInfo, key string) {
+	ps := f.Params
+	sl, pi, pj := ps[0].Name(), ps[1].Name(), ps[2].Name()
+	readOf := func(t *Term, idx string) bool {
+		t = ext0(t)
+		if t == nil {
+			return false
+		}
+		a, ok := callArgs(t, "ExecReader")
+		if !ok || len(a) != 2 {
+			return false
+		}
+		e := a[0]
+		if !(e.Op == "index" && e.Args[0].Op == "param" && e.Args[0].Name == sl && e.Args[1].Op == "param" && e.Args[1].Name == idx) {
+			return false
+		}
+		k := a[1]
+		return k.Op == "field" && k.Name == "Key" && elemOfLoop(k, lp)
+	}
+	kind := func(t *Term) string {
+		if x, ok := isNilTest(t); ok {
+			if readOf(x, pi) {
+				return "firstNil"
+			}
+			if readOf(x, pj) {
+				return "secondNil"
+			}
+		}
+		if a, ok := isCompareCall(t); ok {
+			if readOf(a[0], pi) && readOf(a[1], pj) {
+				return "res"
+			}
+			if readOf(a[0], pj) && readOf(a[1], pi) {
+				return "resSwapped"
+			}
+		}
+		if t.Op == "field" && t.Name == "Value" && elemOfLoop(t, lp) {
+			return "asc"
+		}
+		return ""
+	}
+	seen := map[string]string{}
+	cfg := WalkCfg{
+		Domain: func(t *Term) []constant.Value {
+			switch k := kind(t); k {
+			case "firstNil", "secondNil", "asc":
+				seen[t.String()] = k
+				return boolDom
+			case "res", "resSwapped":
+				seen[t.String()] = k
+				return signDom
+			}
+			return nil
+		},
+		Prune: func(_ string, t *Term, val constant.Value) bool {
+			x, ok := isNilTest(t)
+			return ok && isErrorType(x) && val.Kind() == constant.Bool && !constant.BoolVal(val)
+		},
+		StopAt:    func(b *ssa.BasicBlock) bool { return b == lp.header },
+		MaxVisits: 1, MaxPaths: 4000,
+	}
+	paths, err := WalkFrom(f, lp.body, lp.header, cfg)
+	if err != nil {
+		c.Unknown("c05.less-table", key, c.P.Pos(f.Pos()), err.Error())
+		return
+	}
+	var why []string
+	rows := 0
+	for _, p := range paths {
+		m := map[string]constant.Value{}
+		for k, v := range p.Asg {
+			if n, ok := seen[k]; ok {
+				m[n] = v
+			}
+		}
+		if rs, has := m["resSwapped"]; has {
+			if _, hasRes := m["res"]; !hasRes {
+				m["res"] = cInt(int64(-signOf(rs)))
+			}
+		}
+		want, decided := "", true
+		switch {
+		case m["firstNil"] == nil:
+			decided = false
+		case isTrueC(m["firstNil"]):
+			want = "false"
+		case m["secondNil"] == nil:
+			decided = false
+		case isTrueC(m["secondNil"]):
+			want = "true"
+		case m["res"] == nil:
+			decided = false
+		case signOf(m["res"]) == 0:
+			want = "next"
+		case m["asc"] == nil:
+			decided = false
+		case isTrueC(m["asc"]):
+			want = fmt.Sprint(signOf(m["res"]) < 0)
+		default:
+			want = fmt.Sprint(signOf(m["res"]) > 0)
+		}
+		got := p.Exit
+		if p.Exit == "return" && len(p.Ret) == 2 {
+			if p.Ret[0].C != nil {
+				got = p.Ret[0].C.ExactString()
+			} else {
+				got = avString(p.Ret[0])
+			}
+		}
+		if p.Exit == "stop" {
+			got = "next"
+		}
+		rows++
+		if !decided {
+			why = append(why, fmt.Sprintf("a path ends with %s without consulting, in order, NULL first / NULL second / the comparison / the direction (%v)", got, m))
+			continue
+		}
+		if got != want {
+			why = append(why, fmt.Sprintf("wrong result: %v yields %s, reference %s", m, got, want))
+		}
+	}
+	// after the last key: not less; before the loop: nothing but an optional empty-keys shortcut to `not less`
+	post, err := WalkFrom(f, lp.exit, lp.header, WalkCfg{MaxVisits: 1})
+	if err != nil || len(post) == 0 {
+		why = append(why, "no path after the last key")
+	}
+	for _, p := range post {
+		if p.Exit != "return" || len(p.Ret) != 2 || p.Ret[0].C == nil || isTrueC(p.Ret[0].C) || !p.Ret[1].Nil {
+			why = append(why, "when every key ties the comparator does not answer `not less`")
+		}
+	}
+	pre, _ := WalkFunc(f, WalkCfg{StopAt: func(b *ssa.BasicBlock) bool { return b == lp.header }, MaxVisits: 1})
+	for _, p := range pre {
+		if p.Exit == "return" && (len(p.Ret) != 2 || p.Ret[0].C == nil || isTrueC(p.Ret[0].C)) {
+			why = append(why, "a return before the first key answers "+avString(p.Ret[0]))
+		}
+	}
+	if rows < 6 {
+		why = append(why, fmt.Sprintf("only %d iteration paths", rows))
+	}
+	c.Check(len(why) == 0, "c05.less-table", key, c.P.Pos(f.Pos()), fmt.Sprintf("loop form: %d iteration paths agree with the comparator table; ties on every key => not less", rows), strings.Join(uniq(why), "; "))
 }
